@@ -36,8 +36,14 @@ fn phases(p: &EpParams) -> u64 {
     if p.engine == "miri" { 4 } else { 100 }
 }
 
+fn only_mass(p: &EpParams) -> bool {
+    p.get_u64("only_mass") == Some(1)
+}
+
 fn n_random(p: &EpParams) -> u64 {
-    if p.engine == "miri" {
+    if only_mass(p) {
+        0
+    } else if p.engine == "miri" {
         2
     } else if tier_thorough(p) {
         20_000
@@ -47,12 +53,15 @@ fn n_random(p: &EpParams) -> u64 {
 }
 
 fn sweep(p: &EpParams) -> u64 {
+    if only_mass(p) {
+        return 0;
+    }
     phases(p) * deadlines(p).len() as u64 * KINDS.len() as u64
 }
 
 /// Whole pages of leases that run out in one instant, with requests arriving in that instant.
 fn n_mass(p: &EpParams) -> u64 {
-    if p.engine == "miri" { 0 } else if tier_thorough(p) { 64 } else { 16 }
+    if p.engine == "miri" { 0 } else if tier_thorough(p) { 64 } else if only_mass(p) { 32 } else { 16 }
 }
 
 pub fn plan(p: &EpParams) -> Plan {
@@ -321,6 +330,10 @@ async fn mass_episode(p: &EpParams) -> EpReport {
         }
         if back == n {
             rep.inc("whole_pages_redelivered_after_one_instant_expiry");
+        } else if back < n {
+            // C16: the consumer took these pages and never answered (it is gone as far as the server
+            // can tell); whatever else reaches the subscription while they expire, all come back
+            rep.viol("C16", "C16:lost-after-abandonment:mass-expiry", format!("{} of {} messages handed to a consumer that never answered came back after their deadline (look-ups were arriving at the subscription while the leases ran out)", back, n));
         }
         seq.check_stats("Pull").await;
         rep.nontrivial = true;
